@@ -208,6 +208,25 @@ def rule_create_from(ctx, rid="R4.4"):
     E = prog.cls("exceptions._Error")
     init = E.methods["__init__"]
     cont = E.methods["_contents"]
+    from .errsem import create_from_eval, FIELDS
+    sem = create_from_eval(prog)
+    if sem is not None:
+        # decided by instantiating the package's error classes inside the definitional interpreter (sa/tokeval.py): an error with
+        # every field set to a distinct value, re-typed through create_from, must come back with every field equal
+        params = init.params[1:]
+        lost = sorted(set(params) - set(FIELDS))
+        if sem["create_from"] is None and not lost:
+            r.ok(site(cont), "every constructor field (%d) survives create_from" % len(params))
+            r.ok(site(init), "every constructor parameter is stored and read back under its own name")
+            r.ok(site(E.methods["create_from"]), "builds an instance of the class it is called on from the other error's contents")
+        elif lost:
+            for m in lost:
+                r.fail("%s|missing-field|%s" % (cont.qual, m), site(init), "constructor parameter %r is not among the fields compared (new field: extend the table)" % m)
+        else:
+            msg = sem["create_from"]
+            fld = msg.split(" ")[1] if msg.startswith("field ") else "shape"
+            r.fail("%s|missing-field|%s" % (cont.qual, fld), site(cont), "SchemaError.create_from loses information: %s" % msg)
+        return r
     params = init.params[1:]
     attrs = None
     for n in walk_body(cont):
@@ -267,6 +286,16 @@ def rule_best_match(ctx, rid="R4.5"):
     f = prog.func("exceptions.best_match")
     cfg = cfg_of(f)
     r = ctx.rule(rid, "best_match returns an element of its input or of the context tree below it, never a new object", floor=3)
+    from .errsem import best_match_eval
+    sem = best_match_eval(prog)
+    if sem is not None:
+        if sem["selects"] is None:
+            r.ok(site(f), "None for no errors; otherwise the very object of a given error or of a context-free error below it (5 lists evaluated)")
+            r.ok(site(f) + " [order]", "with the default key the shallowest error wins, whichever comes first")
+            r.ok(site(f) + " [descent]", "an anyOf/oneOf winner is followed into its context")
+        else:
+            r.fail("%s|def|selection" % f.qual, site(f), sem["selects"])
+        return r
     rets = [n for n in cfg.live if n.kind == "return"]
     names = {n.ast.value.id for n in rets if isinstance(n.ast.value, ast.Name)}
     nonname = [n for n in rets if n.ast.value is not None and not isinstance(n.ast.value, ast.Name)
